@@ -400,7 +400,42 @@ REP_COUNTS = [10, 20, 30, 100, 101, 105, 110, 5, 6, 7, 8, 9, 11, 12, 99, 112]
 def rep_count(rng, lo, hi):
     return rng.choice(REP_COUNTS) if rng.random() < 0.4 else rng.randint(lo, hi)
 
+_impl_only = False
+
+def open_typed_array(rng):
+    """an array that ends in an open range written in the explicit form "a b ..." over booleans
+    (the step of an alternation is 'true'), floats or integers; nested, repeated or plain"""
+    global _impl_only
+    k = rng.choice("BBBfi")
+    if k in "Bf":
+        _impl_only = True       # the scan model has no boolean / float steps: judged by the Spec oracle only (kind xs)
+    if k == "B":
+        a, b = rng.choice([True, False]), rng.choice([True, False])
+        lit = lambda v: "true" if v else "false"
+        sl = lambda v: "T" if v else "F"
+        if a != b:
+            parts, slots, ty = [lit(a), lit(b), "..."], [sl(a), "R:0:1", "T", sl(b)], sl(b)
+        else:
+            parts, slots, ty = [lit(a), lit(b), "..."], [sl(a), "R:0:0", sl(b)], sl(b)
+    elif k == "f":
+        x = rng.choice([0.5, 1.5, -2.0, 8.0]); d = rng.choice([0.5, 1.0, -0.25, 2.0])
+        parts, slots, ty = [repr(x), repr(x + d), "..."], [f32(x), "R:0:1", f32(d), f32(x + d)], "f"
+    else:
+        x = rng.randint(-20, 20); d = rng.choice([2, 3, -4, 7])
+        parts, slots, ty = [str(x), str(x + d), "..."], ["i:%d" % x, "R:0:1", "i:%d" % d, "i:%d" % (x + d)], "i"
+    text = "[" + sep(rng, False).join(parts) + rng.choice(["", " "]) + "]"
+    slots = ["a:%d:%d" % (ord(ty), len(slots))] + slots
+    q = rng.random()
+    if q < 0.25:                                  # nested in an outer array
+        return "[" + text + "]", ["a:97:%d" % len(slots)] + slots
+    if q < 0.4:                                   # repeated
+        m = rep_count(rng, 2, 4)
+        return "%dx%s" % (m, text), ["R:%d:0" % m] + slots
+    return text, slots
+
 def structured(rng):
+    if rng.random() < 0.15:
+        return open_typed_array(rng)
     """ranges, repetitions, arrays: (text, slots)"""
     q = rng.random()
     if q < 0.15:
@@ -456,6 +491,8 @@ def gen(rng, tier, dist):
         dist[k] = dist.get(k, 0) + 1
     for _ in range(n):
         nw = rng.choice([1, 1, 2, 2, 3, 4, 6, 10])
+        global _impl_only
+        _impl_only = False
         text, slots, kind = "", [], "sc"
         prev_t = ""
         lead = rng.random()
@@ -495,6 +532,8 @@ def gen(rng, tier, dist):
             if j + 1 < nw or rng.random() < 0.3:
                 text += sep(rng)
         bump("words=%d" % nw)
+        if _impl_only and kind == "sc":
+            kind = "xs"
         bump(kind)
         out.append("%s %s %s" % (kind, text.encode("latin-1").hex(), ";".join(slots)))
     return out
